@@ -523,7 +523,7 @@ impl Property for C17 {
         vec![("sequential", 3), ("interleaved", 1), ("burst-direct", 2)]
     }
     fn budget(&self) -> (u64, u64) {
-        (6_000, 300_000)
+        (150_000, 3_000_000)
     }
     fn rule(&self) -> &'static str {
         "1-3 sessions over the real TCP / WebSocket / HTTP transports of a node booted by start_db (simulated wire), 2-14 events of {connect, use-db with token / wrong token / user token / unknown database (same database again or another one), refused command, disconnect (TCP close, WS close frame, WS abrupt), one-shot HTTP request} over 1-2 databases; an observer session per database (counted) reads $connections after every event at a quiescent point and watches it; 'interleaved' runs the sessions as concurrent tasks and judges the end state; 'burst-direct' lets 2-4 direct sessions select (and switch) databases at the same instant, checks every counter, then lets them all leave at the same instant and checks again (handlers interleave at lock granularity). Non-trivial: a database was selected by at least one non-observer session. distinct = distinct (program, task-switch sequence)."
